@@ -131,8 +131,8 @@ def table(P, D):
     return {"os": osm, "filepath": fpm, "fmt": fmtm, "globals": glob, "file": filem}
 
 
-CONTEXTS = ["top", "spawn", "spawn2", "clone", "hostcall", "clone2", "import", "import_top", "callback", "spawn_import"]
-QUICK_CONTEXTS = ["top", "spawn", "clone", "import", "import_top", "callback"]
+CONTEXTS = ["top", "spawn", "spawn2", "clone", "hostcall", "apicall", "withvm", "clone2", "import", "import_top", "callback", "spawn_import"]
+QUICK_CONTEXTS = ["top", "spawn", "clone", "apicall", "withvm", "import", "import_top", "callback"]
 
 
 def fn_body(setup, call):
@@ -156,6 +156,10 @@ def render_ctx(ctxname, setup, call):
         return "func target() {\n%s\n}" % body, {}, ["hostclone", "hostclone"]
     if ctxname == "hostcall":
         return "func target() {\n%s\n}" % body, {}, ["hostcall"]
+    if ctxname == "apicall":       # risor.Call(ctx, code, "target", nil, options...): the embedding API's own way to call a function
+        return "func target() {\n%s\n}" % body, {}, ["apicall"]
+    if ctxname == "withvm":        # risor.EvalCode(..., WithVM(vm), options...), then vm.Call
+        return "func target() {\n%s\n}" % body, {}, ["withvm"]
     if ctxname == "import":
         return "import c12m\nc12m.f()", {"c12m": "func f() {\n%s\n}" % body}, []
     if ctxname == "import_top":
@@ -448,7 +452,28 @@ def _body(res, tier, repo, obs, model, cg, proved, work):
                           "spec": {"id": "corpus-" + name, "main": main, "modules": modules, "withos": int(t[1]),
                                    "steps": [{"kind": "top", "ctx": int(t[2])}] + [{"kind": k, "ctx": c} for k, c in host],
                                    "fn": "target"}})
-    allcases = dcases + bcases
+    # every builtin once more under risor's own VirtualOS (nothing mounted, no user configured): served from the virtual
+    # configuration or refused, never from the host
+    vcases = []
+    for c in bcases:
+        if c["context"] == "top" and c["supply"] == "withos":
+            sp = dict(c["spec"], id="v" + c["id"], withos=9)
+            vcases.append({"id": "v" + c["id"], "kind": "virtual", "builtin": c["builtin"], "context": "top", "supply": "virtualos",
+                           "expect": [], "want_os": 9, "spec": sp})
+    for i, src in enumerate(["os.current_user()", "os.current_user().username", "os.current_user().home_dir", "os.lookup_uid(\"0\")",
+                             "os.lookup_user(\"root\")", "os.lookup_gid(\"0\")", "os.lookup_group(\"root\")", "os.hostname()",
+                             "os.getpid()", "os.getuid()", "os.environ()", "os.getenv(\"C12_SENTINEL\")", "os.getenv(\"HOME\")",
+                             "os.getwd()", "os.temp_dir()", "os.user_home_dir()", "os.user_cache_dir()", "os.user_config_dir()", "os.args()"]):
+        vcases.append({"id": "vx%d" % i, "kind": "virtual", "builtin": src, "context": "top", "supply": "virtualos", "expect": [], "want_os": 9,
+                       "spec": {"id": "vx%d" % i, "main": "try(func() { return " + src + " }, func(e) { return string(e) })", "modules": {},
+                                "withos": 9, "steps": [{"kind": "top", "ctx": 0}], "fn": "target"}})
+    import getpass
+    import socket
+    host_facts = {"the real host name": socket.gethostname(), "the real process id is not observable here": None,
+                  "the real user name": getpass.getuser(), "the real home directory": os.path.expanduser("~"),
+                  "the real sentinel directory": sent, "the real sentinel environment value": '"real"',
+                  "the real HOME": os.environ.get("HOME")}
+    allcases = dcases + bcases + vcases
     nshard = min(C.NCPU, 16)
     got, err = run_cases(obs, work, [c["spec"] for c in allcases], nshard)
     if got is None:
@@ -478,7 +503,16 @@ def _body(res, tier, repo, obs, model, cg, proved, work):
         for r in g.get("real") or []:
             why.append("REAL OS touched: " + r)
         log = g.get("log") or []
-        if c["kind"] == "builtin":
+        if c["kind"] == "virtual":
+            per_ctx["virtualos"] = per_ctx.get("virtualos", 0) + 1
+            txt = (g.get("result") or "") + " " + (g.get("err") or "")
+            for what, fact in host_facts.items():
+                if fact and len(fact) > 2 and fact in txt and not (fact in c["spec"]["main"]):
+                    why.append("under a VirtualOS the call %s answered with %s (%s): %s" % (c["builtin"], what, fact, txt[:160]))
+            if "real-content" in txt or "real-inner" in txt:
+                why.append("under a VirtualOS the call %s read a real file: %s" % (c["builtin"], txt[:120]))
+            nontrivial.add(("virtual", c["builtin"]))
+        elif c["kind"] == "builtin":
             per_ctx[c["context"]] = per_ctx.get(c["context"], 0) + 1
             if g.get("err", "").startswith(("parse:", "compile:", "get:", "no steps")):
                 harness_bad.append({"case": c["id"], "builtin": c["builtin"], "context": c["context"], "why": g["err"]})
@@ -571,6 +605,10 @@ def _body(res, tier, repo, obs, model, cg, proved, work):
         # the generator's own search found a static path to the real OS: a concrete failing call chain
         res.violation({"property": PROP, "kind": "oracle-violation", "why": ["a builtin statically reaches the real OS"],
                        "real_reached": cg["real_reached"][:20], "witness_paths": cg.get("witness_paths")})
+        return
+    if cg.get("virtual_os_real_reached"):
+        res.violation({"property": PROP, "kind": "oracle-violation", "why": ["a method of risor's VirtualOS statically reaches the real OS"],
+                       "real_reached": cg["virtual_os_real_reached"][:20], "witness_paths": cg.get("virtual_os_witness_paths")})
         return
     if not proved:
         res.violation({"property": PROP, "kind": "proof-obligation-broken", "theorem_file": "coq/props/C12.v",
